@@ -391,3 +391,79 @@ def prologue(fn, member):
         if vals.get(f"{t}_vals") != t:
             bad.append(f"{t}_vals should be {t}->vals, is {vals.get(f'{t}_vals')}")
     return bad
+
+
+def shadowing(fn):
+    """C scoping vs the flat variables of the IR/LLVM.  A name declared twice in one C scope is a redefinition (the C
+    does not compile).  A name declared again in a NESTED scope (branch arm, loop body) is a new variable in C only -
+    the IR machine and the LLVM back end (hoisted declarations) keep ONE variable.  That is harmless while the outer
+    variable is dead (tensora re-uses index names in sibling loop nests); it makes the two back ends run different
+    programs when
+      * the nested declaration's initialiser reads the name itself (C reads the new, uninitialised variable), or
+      * the outer variable is read again after the nested scope (or by the condition of a loop around it) without having
+        been assigned in between: C still sees the old value, the flat model the value the nested code left."""
+    bad = []
+    params = {p.name.name for p in fn.parameters}
+
+    def reads(e):
+        return {n.name for n in walk(e) if isinstance(n, ir.Variable)}
+
+    def stmt_reads(s_):
+        if isinstance(s_, ir.Assignment):
+            r = reads(s_.value)
+            if not isinstance(s_.target, ir.Variable):
+                r |= reads(s_.target)
+            return r
+        if isinstance(s_, ir.DeclarationAssignment):
+            return reads(s_.value)
+        if isinstance(s_, ir.Return):
+            return reads(s_.value)
+        return set()
+
+    def visit(stmt, visible, here, tainted):
+        """tainted: names whose outer variable was shadowed by a nested declaration and not assigned since."""
+        if isinstance(stmt, ir.Block):
+            for s_ in stmt.statements:  # nested Blocks are printed without braces: same scope
+                visit(s_, visible, here, tainted)
+        elif isinstance(stmt, (ir.Declaration, ir.DeclarationAssignment)):
+            name = stmt.name.name if isinstance(stmt, ir.Declaration) else stmt.target.name.name
+            if isinstance(stmt, ir.DeclarationAssignment):
+                for n in stmt_reads(stmt) & tainted:
+                    bad.append(f"{n} is read after a nested scope re-declared it")
+            if name in here:
+                bad.append(f"{name} is declared twice in one scope")
+            elif name in visible:
+                if isinstance(stmt, ir.DeclarationAssignment) and name in reads(stmt.value):
+                    bad.append(f"{name} is re-declared in a nested scope with an initialiser that reads {name} itself")
+                shadowed.add(name)
+            tainted.discard(name)
+            here.add(name)
+            visible.add(name)
+        elif isinstance(stmt, ir.Assignment):
+            for n in stmt_reads(stmt) & tainted:
+                bad.append(f"{n} is read after a nested scope re-declared it")
+            if isinstance(stmt.target, ir.Variable):
+                tainted.discard(stmt.target.name)
+        elif isinstance(stmt, ir.Return):
+            for n in stmt_reads(stmt) & tainted:
+                bad.append(f"{n} is read after a nested scope re-declared it")
+        elif isinstance(stmt, ir.Branch):
+            for n in reads(stmt.condition) & tainted:
+                bad.append(f"{n} is read after a nested scope re-declared it")
+            before = set(shadowed)
+            visit(stmt.if_true, set(visible), set(), set(tainted))
+            visit(stmt.if_false, set(visible), set(), set(tainted))
+            tainted |= {n for n in shadowed - before if n in visible}
+        elif isinstance(stmt, ir.Loop):
+            for n in reads(stmt.condition) & tainted:
+                bad.append(f"{n} is read after a nested scope re-declared it")
+            before = set(shadowed)
+            visit(stmt.body, set(visible), set(), set(tainted))
+            new = {n for n in shadowed - before if n in visible}
+            for n in new & reads(stmt.condition):
+                bad.append(f"{n} is re-declared inside a loop whose condition reads it")
+            tainted |= new
+
+    shadowed = set()
+    visit(fn.body, set(params), set(params), set())
+    return sorted(set(bad))
